@@ -90,6 +90,26 @@ def summarise(prog, limit=60000):
         e = strip_refs(e)
         return contains_call(e, lambda n: n.endswith("String::pop")) is not None
 
+    def char_map_of(e):
+        """`table(character)` for a local char → Option<char> function: (its key, 'char'|'rmc') or None."""
+        e = strip_refs(e)
+        if e.k == "call" and e.a[0] in prog.fns and prog.fns[e.a[0]].get("inputs") == ["char"] \
+                and prog.fns[e.a[0]].get("output") == "std::option::Option<char>" and len(e.a[1]) == 1:
+            if is_character(e.a[1][0]):
+                return e.a[0], "char"
+            if is_rmc(e.a[1][0]):
+                return e.a[0], "rmc"
+        return None
+
+    def mapped_char(e):
+        """The payload of `table(character)`'s Some: '<map:fn>' or None."""
+        e = strip_refs(e)
+        if e.k == "field" and strip_refs(e.a[0]).k == "downcast":
+            m = char_map_of(strip_refs(e.a[0]).a[0])
+            if m is not None and m[1] == "char":
+                return "<map:%s>" % m[0]
+        return None
+
     def classify(d, vals, allv, ty, s, wrote_buf, wrote_pend):
         """Returns (atom, value) or None."""
         neg = False
@@ -158,6 +178,11 @@ def summarise(prog, limit=60000):
                 some = False if (vals == (0,) or allv == (1,)) else None
             if x.k == "call" and x.a[0].endswith("Iterator>::next") and any(is_value(y) for y in x.walk()) and contains_call(x, lambda n: n.endswith("::rev")) is None:
                 return ("char_some",), some
+            m = char_map_of(x)
+            if m is not None:
+                if m[1] == "rmc" and wrote_buf:
+                    s.tainted = True
+                return ("%s_map" % m[1], m[0]), some
             if self_path(x) == (pend,):
                 return ("pending_some",), some
             if x.k == "call" and x.a[0].endswith("String::pop"):
@@ -233,10 +258,14 @@ def summarise(prog, limit=60000):
                         v = strip_refs(args[1])
                         if is_const(v, "char"):
                             eff = ("push", const_val(v))
+                        elif mapped_char(v) is not None:
+                            eff = ("push", mapped_char(v))
                         elif is_character(v):
                             eff = ("push", "<character>")
                         elif is_popped(v):
                             eff = ("push", "<popped>")
+                        elif mapped_char(v) is not None:
+                            eff = ("push", mapped_char(v))
                         else:
                             eff = ("push", repr(v)[:80])
                     elif op == "push_str":
@@ -352,6 +381,10 @@ def feasible(s, pe=None, cls=None):
                 if a[0] == kind_pred and a[1] in cls:
                     r = pe.call(cls[a[1]], [ord(ident[0])])
                     if r is not None and r != v:
+                        return False
+                if a[0] == kind_eq.replace("_eq", "_map") and v is not None:
+                    r = pe.call(a[1], [ord(ident[0])])
+                    if isinstance(r, tuple) and r and r[0] in ("some", "none") and (r[0] == "some") != v:
                         return False
     # the value's identity fixes its first character
     for a, v in s.atoms:
